@@ -2159,10 +2159,11 @@ nng_thread_create(nng_thread **thrp, void (*func)(void *), void *arg)
 	if ((thr = NNI_ALLOC_STRUCT(thr)) == NULL) {
 		return (NNG_ENOMEM);
 	}
-	*thrp = (void *) thr;
 	if ((rv = nni_thr_init(thr, func, arg)) != 0) {
+		NNI_FREE_STRUCT(thr);
 		return (rv);
 	}
+	*thrp = (void *) thr;
 	nni_thr_run(thr);
 	return (0);
 }
